@@ -2,6 +2,10 @@
 C01 — Frame round-trip fidelity (v1 and v2). Property theorems only.
 -/
 import OAP.Model.Frame
+import OAP.Proofs.Frame
+import OAP.Props.C02
+import OAP.Props.C09
+set_option linter.unusedSimpArgs false
 namespace OAP.C01
 open OAP OAP.Frame
 
@@ -33,5 +37,160 @@ theorem pack_error_over_limit (v : Ver) (gz : GzOracle) (p : Packet) (thr : Int)
     (pack v gz p thr).isOk = false := by
   have : Gen.v1_MaxBodyLength = 16777215 := rfl
   simp [pack, hc, this, hl, Res.isOk]
+
+/-- the packets the property speaks about: a known type, a command that fits its byte, a 16-byte
+signature when signed, not already marked compressed, and (v2) metadata that is valid and fits -/
+def InDomain (v : Ver) (p : Packet) : Prop :=
+  p.type ≠ .other ∧ p.cmd.toNat < 256 ∧ (p.verify = true → p.signature.length = 16) ∧ p.gzip = false ∧
+  (v = .v2 → (∀ kv ∈ p.values, Metadata.validPair kv = true) ∧
+             ((Metadata.encPairs (Metadata.sortPairs p.values)).length : Int) ≤ 65535)
+
+/-- the "same packet" relation of the property: the fields that the packet's type puts on the wire,
+the metadata pairs in sorted key order (keys before lower-casing: the decoder model returns raw
+pairs), and the body after decompression -/
+def Equiv (v : Ver) (p q : Packet) : Prop :=
+  q.type = p.type ∧ q.cmd = p.cmd ∧ (p.type ≠ .push → q.rid = p.rid) ∧ (p.type = .request → q.timeout = p.timeout) ∧
+  (p.type = .response → q.status = p.status) ∧ q.verify = p.verify ∧
+  (p.verify = true → q.nonce = p.nonce ∧ q.signature = p.signature) ∧
+  (v = .v2 → q.values = Metadata.sortPairs p.values) ∧ q.body = p.body
+
+/-- ROUND TRIP (one-shot decoder): whatever `Pack` emits for a packet in the domain — with or without
+compression, whatever the threshold — `UnpackBytes` accepts and decodes to the same packet -/
+theorem roundtrip_oneshot (v : Ver) (gz : GzOracle) (p p' : Packet) (thr : Int) (bs : Bytes) (codec : UInt8)
+    (hd : InDomain v p) (hs : gz.Sound) (h : pack v gz p thr = .ok (bs, p')) :
+    ∃ q, unpackBytes v gz codec bs = .ok q ∧ Equiv v p q := by
+  obtain ⟨ht, hcmd, hsig, hgz, hmdv⟩ := hd
+  obtain ⟨hpre, _, hlen, hbs⟩ := pack_ok_inv v gz p p' thr bs h
+  have hmd : v = .v2 → Metadata.rawPairs (Metadata.marshalMap p.values 65535) = .ok (Metadata.sortPairs p.values) := by
+    intro hv2
+    obtain ⟨hvp, hfit⟩ := hmdv hv2
+    have hp : (Metadata.sortPairs p.values).Perm p.values := List.mergeSort_perm _ Metadata.keyLe
+    have hv' : ∀ kv ∈ Metadata.sortPairs p.values, Metadata.validPair kv = true := fun kv h => hvp kv (hp.subset h)
+    unfold Metadata.marshalMap
+    rw [C09.marshal_all_fit _ _ hv' hfit, C09.decode_complete]
+    intro kv h
+    have := hv' kv h
+    simp [Metadata.validPair] at this
+    exact ⟨this.1.2, this.2⟩
+  obtain ⟨hvalid, e1, e2, e3, e4, e5, e6, e7, e8, e9, e10⟩ := specOf_valid v gz p p' thr ht hgz hs hpre hlen hmd
+  refine ⟨_, by rw [hbs]; exact C02.decode_accepts v gz codec _ _ _ hvalid, ?_⟩
+  have hc : UInt32.ofNat (p.cmd.toNat % 256) = p.cmd := by
+    rw [Nat.mod_eq_of_lt hcmd]; simp
+  unfold Equiv packetOf specOf
+  simp only [e1, e2, e3, e4, e5, e6, e7, e8, e9, hc]
+  have hv2 : v = Ver.v2 → psOf v p.values = Metadata.sortPairs p.values := by intro h; subst h; rfl
+  cases hpv : p.verify
+  · cases hpt : p.type <;> simp_all
+  · have hsw := sigWindow_id p.signature (hsig hpv)
+    cases hpt : p.type <;> simp_all
+
+/-- `Pack` never panics provided the compressor does not -/
+theorem pack_no_panic (v : Ver) (gz : GzOracle) (p : Packet) (thr : Int)
+    (hg : ∀ x, (gz.compress x).isPanic = false) : (pack v gz p thr).isPanic = false :=
+  pack_noPanic v gz p thr hg
+
+/-- EXACTLY when `Pack` refuses. `wireBody v gz p thr` (OAP/Proofs/Frame.lean) is the body as it goes on
+the wire: `gz.compress p.body` when the threshold condition `gzipCond v thr |p.body|` holds, else
+`p.body` itself. Whenever that is some `b` (always, for a sound oracle: `wireBody_defined`), `Pack`
+succeeds iff the type is known and `b` fits the 24-bit length field — no other packet field matters. -/
+theorem pack_ok_iff (v : Ver) (gz : GzOracle) (p : Packet) (thr : Int) (b : Bytes)
+    (hb : wireBody v gz p thr = .ok b) :
+    (pack v gz p thr).isOk = true ↔ (p.type ≠ .other ∧ b.length ≤ 16777215) :=
+  pack_isOk_iff v gz p thr b hb
+
+theorem wireBody_defined (v : Ver) (gz : GzOracle) (p : Packet) (thr : Int) (hs : gz.Sound) :
+    ∃ b, wireBody v gz p thr = .ok b ∧
+      (gzipCond v thr p.body.length = false → b = p.body) ∧
+      (gzipCond v thr p.body.length = true → gz.compress p.body = .ok b ∧ gz.read b = some (p.body, true)) := by
+  unfold wireBody
+  cases hc : gzipCond v thr p.body.length
+  · exact ⟨p.body, by simp, fun _ => rfl, by intro h; cases h⟩
+  · obtain ⟨c, h1, h2⟩ := hs p.body
+    exact ⟨c, by simp [h1], (by intro h; cases h), fun _ => ⟨h1, h2⟩⟩
+
+/-- … and the refusal is a returned error (not a panic), for exactly two reasons: unknown type, or a
+wire body over 2^24−1 bytes -/
+theorem pack_error_iff (v : Ver) (gz : GzOracle) (p : Packet) (thr : Int) (b : Bytes)
+    (hb : wireBody v gz p thr = .ok b) :
+    ((pack v gz p thr).isOk = false ↔ (p.type = .other ∨ 16777215 < b.length)) ∧
+    ((∃ e, pack v gz p thr = .err e) ↔ (p.type = .other ∨ 16777215 < b.length)) := by
+  have hiff := pack_ok_iff v gz p thr b hb
+  have h1 : (pack v gz p thr).isOk = false ↔ (p.type = .other ∨ 16777215 < b.length) := by
+    constructor
+    · intro h
+      by_cases ht : p.type = .other
+      · exact .inl ht
+      · by_cases hl : b.length ≤ 16777215
+        · rw [hiff.mpr ⟨ht, hl⟩] at h; cases h
+        · exact .inr (by omega)
+    · intro h
+      cases hok : (pack v gz p thr).isOk with
+      | false => rfl
+      | true =>
+        obtain ⟨ht, hl⟩ := hiff.mp hok
+        rcases h with h | h
+        · exact absurd h ht
+        · omega
+  refine ⟨h1, ?_⟩
+  rw [← h1]
+  constructor
+  · rintro ⟨e, he⟩; rw [he]; rfl
+  · intro h
+    obtain ⟨p1, hp1, _, _⟩ := packPre_wireBody v gz p thr b hb
+    have hnp : (pack v gz p thr).isPanic = false := by
+      rw [pack_eq, hp1]; exact packTail_no_panic v p1
+    exact Res.not_ok_not_panic _ h hnp
+
+/-- with a sound compressor, in one statement -/
+theorem pack_error_iff_sound (v : Ver) (gz : GzOracle) (p : Packet) (thr : Int) (hs : gz.Sound) :
+    ∃ b, wireBody v gz p thr = .ok b ∧
+      ((∃ e, pack v gz p thr = .err e) ↔ (p.type = .other ∨ 16777215 < b.length)) := by
+  obtain ⟨b, hb, _⟩ := wireBody_defined v gz p thr hs
+  exact ⟨b, hb, (pack_error_iff v gz p thr b hb).2⟩
+
+/-! non-vacuity: a v2 response with verify, one metadata pair and a 3-byte body is in the domain, `Pack`
+accepts it (identity "compressor", which is Sound), and the round trip applies -/
+
+def exPacket : Packet :=
+  { type := .response, cmd := 7, rid := 0x01020304, status := 9, verify := true, nonce := 5
+    signature := List.replicate 16 0xAA, values := [([0x61], [0x78])], codec := 1, body := [1, 2, 3] }
+
+def idGz : GzOracle := { compress := fun x => .ok x, read := fun c => some (c, true) }
+
+theorem idGz_sound : idGz.Sound := fun x => ⟨x, rfl, rfl⟩
+
+theorem exPacket_inDomain : InDomain .v2 exPacket := by
+  refine ⟨by decide, by decide, by decide, by decide, fun _ => ⟨by decide, ?_⟩⟩
+  have : Metadata.sortPairs exPacket.values = [([0x61], [0x78])] := by
+    simp [Metadata.sortPairs, exPacket]
+  rw [this]; decide
+
+example : ∃ bs p' q, pack .v2 idGz exPacket 0 = .ok (bs, p') ∧ unpackBytes .v2 idGz 1 bs = .ok q ∧ Equiv .v2 exPacket q := by
+  have hb : wireBody .v2 idGz exPacket 0 = .ok [1, 2, 3] := by decide
+  have hok := (pack_ok_iff .v2 idGz exPacket 0 _ hb).mpr ⟨by decide, by decide⟩
+  cases h : pack .v2 idGz exPacket 0 with
+  | ok r =>
+    obtain ⟨bs, p'⟩ := r
+    obtain ⟨q, h1, h2⟩ := roundtrip_oneshot .v2 idGz exPacket p' 0 bs 1 exPacket_inDomain idGz_sound h
+    exact ⟨bs, p', q, rfl, h1, h2⟩
+  | err e => rw [h] at hok; cases hok
+  | panic w => rw [h] at hok; cases hok
+
+/-- the same with compression engaged (threshold 1 ≤ 3 bytes) -/
+example : ∃ bs p' q, pack .v2 idGz exPacket 1 = .ok (bs, p') ∧ p'.gzip = true ∧
+    unpackBytes .v2 idGz 1 bs = .ok q ∧ Equiv .v2 exPacket q := by
+  have hb : wireBody .v2 idGz exPacket 1 = .ok [1, 2, 3] := by decide
+  have hok := (pack_ok_iff .v2 idGz exPacket 1 _ hb).mpr ⟨by decide, by decide⟩
+  cases h : pack .v2 idGz exPacket 1 with
+  | ok r =>
+    obtain ⟨bs, p'⟩ := r
+    obtain ⟨q, h1, h2⟩ := roundtrip_oneshot .v2 idGz exPacket p' 1 bs 1 exPacket_inDomain idGz_sound h
+    obtain ⟨hpre, _⟩ := pack_ok_inv .v2 idGz exPacket p' 1 bs h
+    refine ⟨bs, p', q, rfl, ?_, h1, h2⟩
+    rcases packPre_ok .v2 idGz exPacket p' 1 hpre with ⟨hc, _⟩ | ⟨_, c, _, hp⟩
+    · exact absurd hc (by decide)
+    · rw [hp]
+  | err e => rw [h] at hok; cases hok
+  | panic w => rw [h] at hok; cases hok
 
 end OAP.C01
